@@ -549,7 +549,7 @@ def rule_expressible(ctx: Ctx, rep: Report) -> None:
             raise AnalysisError(f"{q}: call of {callee} vanished")
         for c in cs:
             facts = {t for t, p in g.facts_at_ast(c) if p}
-            missing = [x for x in need if x not in facts]
+            missing = [x for x in need if not any(t == x for t in facts)]  # == and not `in`: texts compare up to a renamed temporary
             rep.ob(rule, f"{q}:{callee}", not missing, fi.where(c),
                    f"under {need}" if not missing else f"reached without the guard(s) {missing}: libsecp256k1 cannot express that operand")
     # multi_mult_var: more than one term, none zero / infinity
